@@ -35,4 +35,20 @@ open Generated in
 theorem generated_iteration_sites_ok :
     setIterationSites.all (fun e => e.2 || (allowedSetIteration.map (·.1)).contains e.1) = true := by decide +kernel
 
+/-- calls through which the clock, the load of the machine, the identity of the process or the order of a directory listing could reach a
+    result, each with the reason why it does not reach a specification, a greedy sequence or an emitted file -/
+def allowedEnvSources : List (String × String) :=
+  [ ("global_params/paths.py:<module>:uuid.uuid4", "names the temporary directory of the run; only paths of intermediate files contain it"),
+    ("greedy/block_generation.py:greedy_standalone:resource.getrusage", "measures the time reported in the statistics (time columns are outside the property)"),
+    ("smt_encoding/solver/solver_from_executable.py:run_and_measure_command:resource.getrusage", "as greedy_standalone"),
+    ("solution_generation/solver_output_generation.py:run_and_measure_command:resource.getrusage", "as greedy_standalone"),
+    ("sfs_generator/gasol_optimization.py:generate_json:os.listdir", "membership test for a directory name before creating it"),
+    ("sfs_generator/gasol_optimization.py:write_instruction_block:os.listdir", "membership test for a directory name before creating it"),
+    ("sfs_generator/ir_block.py:write_rbr:os.listdir", "membership test for a directory name before creating it"),
+    ("verification/forves_verification.py:compare_forves:tempfile.mkstemp", "temporary file handed to the external checker") ]
+
+open Generated in
+/-- no other call lets time, load, process identity or directory order into the pipeline -/
+theorem generated_env_sources_ok : envSources.all (fun e => (allowedEnvSources.map (·.1)).contains e) = true := by decide +kernel
+
 end GasolVerif.Iteration
